@@ -41,7 +41,12 @@ PROVED_LIVENESS = (
     'Lemmas/PrefetchLive.lean), C15_variant (a lexicographic measure, 3*Queue.Phi of the queue view + protocol ranks, decreases on every step of '
     'every thread), C15_terminates (no infinite execution), C15_run_ends / C15_faithful_run / C15_failure_run (every scheduler: the execution is '
     'finite and ends with the client loop ended on exactly the generator / its exception); for configurations with several concurrent requests '
-    '(re-init / stop / shutdown) "no request stays blocked" is still decided by the scheduler on the real code and by exhaustive exploration')
+    '(healthy and FAILING init_generator / next / stop / shutdown) Properties/C15Multi.lean proves: every installed queue has its prefetch thread '
+    '(C15_installed_has_producer, C15_no_orphan_queue), a failing init_generator installs nothing (C15_failed_init_installs_nothing), a skipped stop '
+    'finds the prefetch thread past its last put (C15_skipped_stop_producer_past), and the server-level protocol blocks nobody '
+    '(C15_multi_dead_shape_partial: in a configuration without enabled step every blocked thread is inside an IteratorQueue operation or waits for one '
+    'that is; C15_shutdown_not_missed); the queue-level half of "no request stays blocked" for several concurrent consumers is still decided by the '
+    'scheduler on the real code and by exhaustive exploration')
 RULE = ('one-client cases: generator length 0..6 x failure position (none or any) x prefetch in {1,2,3} x batch in {1,2,3,5} (all combinations, '
         'thorough: x3 schedules); re-init / shutdown cases: a client plus 1-3 of {init_generator (0-2 elements), next_batch (1-3), '
         'stop_prefetch, shutdown} as concurrent request threads, so the re-initialisation / shutdown point is a scheduler choice; '
